@@ -21,6 +21,39 @@ class EventHandler(Protocol):
     __events__: Mapping[str, str]
 
 
+class _HandlerRef(weakref.ref):
+    """Weak reference to a handler, compared and hashed by identity.
+
+    Plain weak references delegate equality and hashing to their
+    referents: handlers that compare equal would be mistaken for one
+    another and unhashable handlers could not be registered at all.
+    """
+    __slots__ = ('_handler_id',)
+
+    def __new__(cls, handler, callback=None):
+        self = super().__new__(cls, handler, callback)
+        self._handler_id = id(handler)
+        return self
+
+    def __init__(self, handler, callback=None):
+        super().__init__(handler, callback)
+
+    def __hash__(self):
+        return self._handler_id
+
+    def __eq__(self, other):
+        if self is other:
+            return True
+        if not isinstance(other, _HandlerRef):
+            return NotImplemented
+        handler = self()
+        return handler is not None and handler is other()
+
+    def __ne__(self, other):
+        result = self.__eq__(other)
+        return result if result is NotImplemented else not result
+
+
 class EventDispatcher:
     """Stores :class:`EventHandler` instances and dispatches events.
 
@@ -56,7 +89,7 @@ class EventDispatcher:
         assert isinstance(handler, EventHandler)
 
         # Populate _events
-        handler_ref = weakref.ref(handler, self._remove_weak_handler)
+        handler_ref = _HandlerRef(handler, self._remove_weak_handler)
         for event_name, method_name in handler.__events__.items():
             self._events.setdefault(event_name, set()).add(
                 (handler_ref, getattr(handler.__class__, method_name)))
@@ -72,7 +105,7 @@ class EventDispatcher:
         """Return whether or not a handler is into the dispatcher."""
         assert isinstance(handler, EventHandler)
 
-        return weakref.ref(handler) in self._handlers
+        return _HandlerRef(handler) in self._handlers
 
     def _remove_weak_handler(self, handler_ref: weakref.ref[EventHandler]):
         """Remove handler given its weak reference.
@@ -92,7 +125,7 @@ class EventDispatcher:
 
         Said handler will stop receiving all dispatched events.
         """
-        self._remove_weak_handler(weakref.ref(handler))
+        self._remove_weak_handler(_HandlerRef(handler))
 
     def dispatch(self, event_name: str, *args, **kwargs):
         """Broadcast an event to all registered listeners.
